@@ -154,6 +154,7 @@ type program struct {
 	globals bool // plain Go values as globals (converted by the locked NewTypeConverter path)
 	imp     bool // uses the shared importer
 	shared  bool // runs shared precompiled code
+	tagged  bool // gets its job's tag as the global `tag`
 }
 
 var programs = map[string]program{
@@ -168,6 +169,14 @@ var programs = map[string]program{
 	// the codec registry
 	"codecs": {src: `[encode("hello", "base64"), decode(encode("hi", "hex"), "hex"), decode(encode([1, 2], "json"), "json"),
 	    string(decode(encode("zz", "gzip"), "gzip")), try(func() { return encode("x", "nope") }, func(e) { return string(e) })]`},
+	// results of the codecs are values of their own: one that is still held while other evaluations (and this one) keep
+	// encoding must decode to what was encoded (self-checking; tag makes every evaluation's payload different)
+	"codecs_held": {src: `s := ""; for i := 0; i < 60; i++ { s = s + sprintf("%d.%d;", tag, i) }
+	    a := encode(s, "gzip"); b := encode(s + "second", "gzip"); h := encode(s, "hex"); z := encode(s + "z", "base64")
+	    x := 0; for i := 0; i < 3000; i++ { x += i % 3 }
+	    c := encode("third" + s, "gzip")
+	    [string(decode(a, "gzip")) == s, string(decode(b, "gzip")) == s + "second", string(decode(c, "gzip")) == "third" + s,
+	     string(decode(h, "hex")) == s, string(decode(z, "base64")) == s + "z"]`, tagged: true},
 	// caches of small ints and bytes, plain arithmetic, strings, errors (errz switch is read)
 	"arith": {src: `x := 0; for i := 0; i < 300; i++ { x += i % 7 }; [x, byte(3) + byte(4), "a" + "b", try(func() { return 1 + "a" }, func(e) { return string(e) }), 255 + 1]`},
 	// standard modules from the default globals
@@ -175,6 +184,20 @@ var programs = map[string]program{
 	    regexp.match("a+", "caab"), sprintf("%d-%s", 7, "x")]`},
 	// the importer cache (one importer shared by every evaluation)
 	"import": {src: `import c09mod; from c09mod2 import twice; [c09mod.add(1, 2), twice(21)]`, imp: true},
+	// imports executed on threads the script starts: the clone loads a module the main code has not loaded yet, then the
+	// main code (and the other clones) import it as well and call into it
+	"spawn_import": {src: `t := spawn(func() { import c09mod; return c09mod.add(1, 2) }); a := t.wait(); import c09mod; from c09mod2 import twice
+	    [a, c09mod.add(3, 4), twice(21)]`, imp: true},
+	"spawn_import_many": {src: `func w3() { import c09mod3; return c09mod3.plus(1) }
+	    func w4() { import c09mod4; return c09mod4.plus(1) }
+	    func w5() { import c09mod5; return c09mod5.plus(1) }
+	    func w6() { import c09mod6; return c09mod6.plus(1) }
+	    func w7() { import c09mod7; return c09mod7.plus(1) }
+	    func w8() { import c09mod8; return c09mod8.plus(1) }
+	    ts := [spawn(w3), spawn(w4), spawn(w5), spawn(w6), spawn(w7), spawn(w8)]
+	    r := ts.map(func(t) { return t.wait() })
+	    import c09mod8; import c09mod3
+	    [r, c09mod8.plus(5), c09mod3.base * 2]`, imp: true},
 	// the malformed stream: a module that does not exist, a program that does not parse
 	"bad_import": {src: `import nosuchmodule; 1`, imp: true},
 	"syntax":     {src: `x := 1 +`},
@@ -299,6 +322,9 @@ func main() {
 		}
 		if p.imp {
 			opts = append(opts, risor.WithImporter(imp))
+		}
+		if p.tagged {
+			opts = append(opts, risor.WithGlobal("tag", j.Tag))
 		}
 		var res object.Object
 		var err error
